@@ -52,16 +52,21 @@ func NewWebsocketConnection(conn *websocket.Conn, remoteSki string) *WebsocketCo
 	}
 }
 
-// sets the error message for the closed connection
-func (w *WebsocketConnection) setConnClosedError(err error) {
+// marks the connection as closed and sets the error message for the closed connection
+//
+// returns true if the connection was not marked as closed before
+func (w *WebsocketConnection) setConnClosedError(err error) bool {
 	w.muxConnClosed.Lock()
 	defer w.muxConnClosed.Unlock()
 
+	wasOpen := !w.connectionClosed
 	w.connectionClosed = true
 
 	if err != nil {
 		w.connectionClosedError = err
 	}
+
+	return wasOpen
 }
 
 func (w *WebsocketConnection) connClosedError() error {
@@ -142,7 +147,11 @@ func (w *WebsocketConnection) handlePing() {
 
 func (w *WebsocketConnection) closeWithError(err error, reason string) {
 	logging.Log().Debug(w.remoteSki, reason, err)
-	w.setConnClosedError(err)
+	// an error on a connection that is already closed is a consequence of closing it
+	if !w.setConnClosedError(err) {
+		return
+	}
+	w.close()
 	w.dataProcessing.ReportConnectionError(err)
 }
 
@@ -169,9 +178,11 @@ func (w *WebsocketConnection) readShipPump() {
 
 			if err != nil {
 				logging.Log().Debug(w.remoteSki, "websocket read error: ", err)
+				first := w.setConnClosedError(err)
 				w.close()
-				w.setConnClosedError(err)
-				w.dataProcessing.ReportConnectionError(err)
+				if first {
+					w.dataProcessing.ReportConnectionError(err)
+				}
 				return
 			}
 
@@ -227,10 +238,6 @@ func (w *WebsocketConnection) checkWebsocketMessage(msgType int, data []byte) er
 // close the current websocket connection
 func (w *WebsocketConnection) close() {
 	w.shutdownOnce.Do(func() {
-		if w.isConnClosed() {
-			return
-		}
-
 		w.setConnClosedError(nil)
 
 		close(w.closeChannel)
@@ -293,9 +300,15 @@ func (w *WebsocketConnection) writeMessageWithoutErrorHandling(messageType int, 
 
 // shutdown the connection and all internals
 func (w *WebsocketConnection) CloseDataConnection(closeCode int, reason string) {
+	// mark the connection as closed first, so nothing that fails from here on
+	// is reported as a connection error
+	wasOpen := w.setConnClosedError(nil)
+
 	// send a close message to the remote side if we have a reason
-	if reason != "" {
-		_ = w.writeMessageWithoutErrorHandling(websocket.CloseMessage, websocket.FormatCloseMessage(closeCode, reason))
+	if wasOpen && reason != "" && w.conn != nil {
+		w.muxConWrite.Lock()
+		_ = w.conn.WriteMessage(websocket.CloseMessage, websocket.FormatCloseMessage(closeCode, reason))
+		w.muxConWrite.Unlock()
 	}
 
 	w.close()
